@@ -190,7 +190,11 @@ func (r *RegistryImpl) Begin(ctx context.Context, engine interface{}, readOnly b
 		tx  Transaction
 		err error
 	}
-	resultCh := make(chan txResult, 1)
+	// Unbuffered on purpose: the send below only succeeds while the caller is
+	// still waiting. With a buffer the helper goroutine could hand a freshly
+	// created transaction to nobody after the caller timed out, leaving its
+	// lock held forever.
+	resultCh := make(chan txResult)
 
 	// Start transaction in a goroutine
 	go func() {
